@@ -319,3 +319,81 @@ package PVM
 //@   requires wf: pair_wf(op, a, b, pc, skipLen)
 //@   ensures exit: result0 == result2 && result1 == result3
 //@   ensures regs: forall(i, 0, 13, a.Registers[i] == b.Registers[i])
+
+// ---- C04: the gas an invocation reports as used (GP A.? R): u = prior - max(remaining, 0), between 0 and the limit ----
+//@ func readRAM
+//@   props C04 C07
+//@   requires wf: wf_memv(m) && in_ram(start, length)
+//@   ensures ok: result1 ==> uint64(len(result0)) == length
+//@   opt loopinv=wf_memv(m) && in_ram(start, length) && length != 0 && fresh(out) && frame_only()
+
+//@ func R
+//@   props C04
+//@   requires nonnil: Psi_H_Return.VM != nil && Psi_H_Return.VM.Gas != nil && Psi_H_Return.VM.Registers != nil && Psi_H_Return.VM.Memory != nil && wf_memv(*Psi_H_Return.VM.Memory)
+//@   requires spent: *Psi_H_Return.VM.Gas <= 0 || uint64(*Psi_H_Return.VM.Gas) <= uint64(priorGas)
+//@   ensures used: uint64(result0) <= uint64(priorGas) && uint64(result0) == uint64(priorGas) - ite(*Psi_H_Return.VM.Gas > 0, uint64(*Psi_H_Return.VM.Gas), 0)
+//@   assigns everything
+
+// ---- range checks used by every host call (C07/C33): exactly "every page of [start, start+offset) is accessible" ----
+//@ pred wf_memv(m) = all(pg, uint32, has(m.Pages, pg) ==> m.Pages[pg] != nil)
+//@ pred in_ram(start, offset) = offset <= 4294967296 && start <= 4294967296 - offset
+//@ func isReadable
+//@   props C07 C33 C04
+//@   requires wf: wf_memv(m)
+//@   ensures empty: offset == 0 ==> result
+//@   ensures range: offset != 0 && !in_ram(start, offset) ==> !result
+//@   ensures pages: offset != 0 && in_ram(start, offset) ==> (result == forall(q, int(start/4096), int((start+offset-1)/4096)+1, readable_pg(m, uint32(q))))
+//@   loop p#0
+//@     invariant range: uint64(p) >= start/4096 && uint64(p) <= (start+offset-1)/4096 + 1 && offset != 0 && in_ram(start, offset)
+//@     invariant seen: forall(q, int(start/4096), int(p), readable_pg(m, uint32(q)))
+//@     invariant frame: frame_only()
+
+//@ func isWriteable
+//@   props C07 C33
+//@   requires wf: wf_memv(m)
+//@   ensures empty: offset == 0 ==> result
+//@   ensures range: offset != 0 && !in_ram(start, offset) ==> !result
+//@   ensures pages: offset != 0 && in_ram(start, offset) ==> (result == forall(q, int(start/4096), int((start+offset-1)/4096)+1, writable_pg(m, uint32(q))))
+//@   loop p#0
+//@     invariant range: uint64(p) >= start/4096 && uint64(p) <= (start+offset-1)/4096 + 1 && offset != 0 && in_ram(start, offset)
+//@     invariant seen: forall(q, int(start/4096), int(p), writable_pg(m, uint32(q)))
+//@     invariant frame: frame_only()
+
+// ---- C06: standard program initialisation (GP A.7 Y): address arithmetic of the memory map and initial registers ----
+//@ func P
+//@   props C06
+//@   requires small: x >= 0 && x <= 4294000000
+//@   ensures ceil: result % 4096 == 0 && uint64(result) >= uint64(x) && uint64(result) - uint64(x) < 4096
+
+//@ func Z
+//@   props C06
+//@   requires small: x >= 0 && x <= 4294000000
+//@   ensures ceil: result % 65536 == 0 && uint64(result) >= uint64(x) && uint64(result) - uint64(x) < 65536
+
+//@ func allocateMemorySegment
+//@   props C06
+//@   requires mem: mem != nil && mem.Pages != nil
+//@   ensures keep: mem.heapPointer == old(mem.heapPointer) && mem.heapLimit == old(mem.heapLimit) && mem.Pages == old(mem.Pages)
+//@   assigns everything
+//@   opt loopinv=mem != nil && mem.Pages != nil && mem.heapPointer == old(mem.heapPointer) && mem.heapLimit == old(mem.heapLimit) && mem.Pages == old(mem.Pages)
+
+//@ func allocateStack
+//@   props C06
+//@   requires mem: mem != nil && mem.Pages != nil
+//@   ensures keep: mem.heapPointer == old(mem.heapPointer) && mem.heapLimit == old(mem.heapLimit) && mem.Pages == old(mem.Pages)
+//@   assigns everything
+//@   opt loopinv=mem != nil && mem.Pages != nil && mem.heapPointer == old(mem.heapPointer) && mem.heapLimit == old(mem.heapLimit) && mem.Pages == old(mem.Pages)
+
+// d = DecodeSerializedValues(p) = (c, o, w, z, s, err): the real decoder is the oracle for the header fields; the
+// clauses below pin what SingleInitializer computes FROM them (GP A.7, with ZZ = 2^16, ZP = 2^12, ZI = 2^24).
+//@ func SingleInitializer
+//@   props C06
+//@   requires size: len(p) < 4294967296 && len(a) <= 16777216
+//@   let d = DecodeSerializedValues(p)
+//@   ensures malformed: nth(d, 5) != nil ==> result3 == ExitPanic
+//@   ensures toolarge: nth(d, 5) == nil && 5*65536 + uint64(Z(len(nth(d, 1)))) + uint64(Z(len(nth(d, 2)) + int(nth(d, 3))*4096 + int(nth(d, 4)) + 16777216)) > 4294967296 ==> result3 == ExitPanic
+//@   ensures regs: result3 == ExitContinue ==> result1[0] == 4294901760 && result1[1] == 4294967296 - 2*65536 - 16777216 && result1[7] == 4294967296 - 65536 - 16777216 && result1[8] == uint64(len(a)) && forall(i, 2, 7, result1[i] == 0) && forall(i, 9, 13, result1[i] == 0)
+//@   ensures heap: result3 == ExitContinue ==> result2.heapPointer == 2*65536 + uint64(Z(len(nth(d, 1)))) + uint64(P(len(nth(d, 2)))) + uint64(nth(d, 3))*4096
+//@   ensures stack: result3 == ExitContinue ==> result2.heapLimit == 4294967296 - 2*65536 - 16777216 - uint64(P(int(nth(d, 4))))
+//@   ensures pages: result3 == ExitContinue ==> result2.Pages != nil
+//@   assigns everything
